@@ -495,6 +495,11 @@ def run(ctx):
     rule_DV(ctx, fm)
     from . import c09
     c09.rule_PV(ctx, fm, P='C10.PV')
+    # the source vector depends on the arguments of the call only: nothing is
+    # remembered on the source / grid objects (rule shared with C11)
+    from . import c11
+    from ..core.report import Renamed
+    c11.rule_P4_inputs(Renamed(ctx, lambda r: 'C10.SF.dispatch'))
 
     class R:
         def __init__(self, c):
